@@ -249,13 +249,23 @@ func runC17(ctx *h.Ctx) int {
 			o.Switches = sw
 		}
 		lib := h.Compile(src, o)
-		cli := runCLIFull(dir, src, prog, o, useStdin, useOutFile)
+		var modes []string
+		if k.R.IntN(4) == 0 {
+			modes = append(modes, "default-config-paths")
+		}
+		if k.R.IntN(4) == 0 {
+			modes = append(modes, "repeated-switch-keys")
+		}
+		cli := runCLIFull(dir, src, prog, o, useStdin, useOutFile, modes...)
 		k.Count("evaluations", 2)
 		if cli.Err != nil {
 			k.C.Inconclusive("cannot run CLI: %v", cli.Err)
 			return
 		}
-		desc := fmt.Sprintf("optimize=%v lm=%v f=%q l=%d stdin=%v outfile=%v", o.Optimize, o.LM, o.FontID, o.MaxLen, useStdin, useOutFile)
+		for _, m := range modes {
+			k.Count("cli_mode_"+m, 1)
+		}
+		desc := fmt.Sprintf("optimize=%v lm=%v f=%q l=%d stdin=%v outfile=%v %v", o.Optimize, o.LM, o.FontID, o.MaxLen, useStdin, useOutFile, modes)
 		if lib.Panic != nil || cli.Exit > 1 {
 			k.Violation("cli-crash", fmt.Sprintf("[%s] library panic %v / CLI exit %d: %s", desc, lib.Panic, cli.Exit, firstN(cli.Stderr, 200)), nil)
 			return
